@@ -53,6 +53,10 @@ func (m *machine) sig(ins instr, what string) string {
 	if m.defect != "" {
 		return m.defect
 	}
+	if ins.dest == "reused" {
+		// failures that only a previously used receiver provokes get their own family of signatures
+		return "C06/" + ins.op + "/" + kindClass(ins.kind) + "/reused-receiver/" + what
+	}
 	return "C06/" + ins.op + "/" + kindClass(ins.kind) + "/" + what
 }
 
@@ -199,6 +203,9 @@ func (m *machine) step(ins instr) int {
 			return m.call(ins, func() error { return inplace(a.ct) })
 		case "out":
 			out = m.freshOut()
+			return m.call(ins, func() error { return inplace(out) })
+		case "reused":
+			out = m.e.stale.CopyNew()
 			return m.call(ins, func() error { return inplace(out) })
 		case "new":
 			return m.call(ins, func() (err error) { out, err = newf(); return })
@@ -560,9 +567,12 @@ func (m *machine) step(ins instr) int {
 		n.eps = a.eps + nb.KeySwitch(a.level)/a.sf()
 
 	case "Rescale":
-		if ins.dest == "inplace" {
+		switch ins.dest {
+		case "inplace":
 			out = a.ct
-		} else {
+		case "reused":
+			out = m.e.stale.CopyNew()
+		default:
 			out = m.freshOut()
 		}
 		err, pan := m.call(ins, func() error { return ev.Rescale(a.ct, out) })
@@ -590,9 +600,12 @@ func (m *machine) step(ins instr) int {
 		case "min-default-squared":
 			min = ratMul(e.delta, e.delta)
 		}
-		if ins.dest == "inplace" {
+		switch ins.dest {
+		case "inplace":
 			out = a.ct
-		} else {
+		case "reused":
+			out = m.e.stale.CopyNew()
+		default:
 			out = m.freshOut()
 		}
 		err, pan := m.call(ins, func() error { return ev.RescaleTo(a.ct, scaleOfRat(min), out) })
@@ -750,6 +763,12 @@ func (m *machine) oracle(ins instr) int {
 	if ct.Level() != r.level {
 		m.fail(m.sig(ins, "level"), "%s at %v: level %d, documented %d", ins.name(), m.path, ct.Level(), r.level)
 		return stViolated
+	}
+	if ins.dest == "reused" && ct.Degree() == 2 && r.degree < 2 {
+		// rlwe.InitOutputBinaryOp documents degree = max(op0, op1, opOut): a larger receiver may keep its degree, but
+		// then its extra component must not change the value (judged below)
+		r.degree = 2
+		c.Cover("reused", "kept-larger-degree")
 	}
 	if ct.Degree() != r.degree {
 		m.fail(m.sig(ins, "degree"), "%s at %v: degree %d, documented %d", ins.name(), m.path, ct.Degree(), r.degree)
